@@ -2,8 +2,8 @@
 
 PROP = dict(
     level="proof",
-    lean_modules=['PopsModel.Props.C10', 'PopsModel.Props.NonVacuous.Host'],
-    theorems=['Pops.C10_removal', 'Pops.C10_pesticide', 'Pops.C10_pesticide_end', 'Pops.C10_coef_zero_one', 'Pops.C10_resistant_not_infected', 'Pops.C10_when', 'Pops.C10_cleared_never_run'],
+    lean_modules=['PopsModel.Props.C10', 'PopsModel.Props.NonVacuous.Host', 'PopsModel.Props.C10Dates'],
+    theorems=['Pops.C10_removal', 'Pops.C10_pesticide', 'Pops.C10_pesticide_end', 'Pops.C10_coef_zero_one', 'Pops.C10_resistant_not_infected', 'Pops.C10_when', 'Pops.C10_cleared_never_run', 'Pops.C10_registered_at_containing_step', 'Pops.C10_eventsAt', 'Pops.C10_run_treatments_once', 'Pops.C10_cleared_never_run_over_run'],
     commands=['hp.treat', 'hp.treatend', 'hp.manage', 'hp.treatlist', 'date.adddays', 'mm.manage'],
     runs={
         "quick": [('h_host', 'pool', 0, 1500), ('h_host', 'treat', 0, 400), ('h_model', 'model', 0, 400), ('h_date', 'single-sample', 0, 700), ('h_mmodel', 'multi', 0, 150), ('h_sim', 'sim', 0, 150)],
